@@ -23,4 +23,31 @@ SimNext == \/ \E r \in Replica : SWrite(r)
            \/ \E r \in Replica : SRestart(r)
            \/ SFinalize
 SimSpec == Init /\ [][SimNext]_vars
+
+(* Trap properties: their negations are given to TLC as invariants; the counterexample is a shortest     *)
+(* behaviour reaching a situation from which only one particular mechanism can still deliver an entry,   *)
+(* and is replayed on the real code followed by the final phase.                                         *)
+Carried(e, b) == \E m \in bag : m.to = b /\ m.kind \in {"pub", "direct"} /\ e \in Anc(m.heads)
+\* an entry that only the writer's _localHeads can still bring to a peer: the writer has merged remote
+\* entries before (so _remoteHeads is set and does not cover it) and no message carrying it is in flight
+TrapLocalHeadNeeded ==
+    \E a, b \in Replica, e \in Ids :
+        /\ a # b /\ e \in log[a] /\ e \notin log[b] /\ e \in cacheL[a]
+        /\ cacheR[a] # {} /\ e \notin Anc(cacheR[a])
+        /\ ~Carried(e, b) /\ want[b] = {}
+        /\ \A c \in Replica \ {a} : e \notin log[c]
+\* an entry that only a third replica's _remoteHeads can bring (relay): the writer is cut off from the peer
+TrapRelayNeeded ==
+    \E a, b, c \in Replica, e \in Ids :
+        /\ a # b /\ b # c /\ a # c
+        /\ e \in log[a] /\ e \in log[c] /\ e \notin log[b] /\ e \notin cacheL[c]
+        /\ ~Linked(a, b) /\ ~Carried(e, b) /\ want[b] = {}
+\* an entry held only by a replica that has restarted since it got it
+TrapAfterRestart ==
+    \E a, b \in Replica, e \in Ids :
+        /\ a # b /\ e \in log[a] /\ e \notin log[b] /\ ~Carried(e, b) /\ want[b] = {} /\ faults > 0
+        /\ e \notin cacheL[a] /\ e \in Anc(cacheR[a])
+NoTrap1 == ~TrapLocalHeadNeeded
+NoTrap2 == ~TrapRelayNeeded
+NoTrap3 == ~TrapAfterRestart
 =============================================================================
